@@ -4,6 +4,9 @@ From Coq Require Import ZArith Lia.
 From OL Require Import theories.Gov.
 Local Open Scope Z_scope.
 
+Lemma guard_some (b : bool) (r : hres) x : cguard b r = Some x -> r = Some x.
+Proof. destruct b; simpl; [auto | discriminate]. Qed.
+
 (* ---------- the state helpers do not touch the proposal map ---------- *)
 Lemma props_fold_add_bal : forall (l : list N) (x : Z) (s : state),
   g_props (fold_left (fun acc v => add_bal acc v x) l s) = g_props s.
@@ -351,11 +354,11 @@ Proof.
     intros HI. apply good_update_sound; [|exact HI]. eapply Hr; eauto. }
   destruct (t_op t) eqn:Eo.
   - simpl. apply pres_same_props. reflexivity.
-  - apply Hc. intros; eapply create_good; eauto.
-  - apply Hc. intros; eapply fund_good; eauto.
+  - apply Hc. intros ? ? HG; apply guard_some in HG; eapply create_good; eauto.
+  - apply Hc. intros ? ? HG; apply guard_some in HG; eapply fund_good; eauto.
   - apply Hc. intros; eapply vote_good; eauto.
   - apply Hc. intros; eapply cancel_good; eauto.
-  - apply Hc. intros; eapply withdraw_good; eauto.
+  - apply Hc. intros ? ? HG; apply guard_some in HG; eapply withdraw_good; eauto.
   - destruct (h_expire s id) as [[s' ev]|] eqn:Eh; simpl; [|apply pres_refl].
     intros HI. apply good_update_sound; [|exact HI]. eapply expire_good; eauto.
   - destruct (h_finalize s (t_env t) id) as [[s' ev]|] eqn:Eh; simpl; [|apply pres_refl].
@@ -883,11 +886,11 @@ Proof.
     split; [apply exp_rel_step_ok, exp_update_sound; auto | eapply exp_update_actinv; eauto]. }
   destruct (t_op t) eqn:Eo.
   - simpl. split; [|exact HA]. intros id p' Hp' Ho. exists p'. auto.
-  - apply Hc. intros; eapply create_exp; eauto.
-  - apply Hc. intros; eapply fund_exp; eauto.
+  - apply Hc. intros ? ? HG; apply guard_some in HG; eapply create_exp; eauto.
+  - apply Hc. intros ? ? HG; apply guard_some in HG; eapply fund_exp; eauto.
   - apply Hc. intros; eapply vote_exp; eauto.
   - apply Hc. intros; eapply cancel_exp; eauto.
-  - apply Hc. intros; eapply withdraw_exp; eauto.
+  - apply Hc. intros ? ? HG; apply guard_some in HG; eapply withdraw_exp; eauto.
   - apply (Hn (h_expire s id)). intros; eapply expire_exp; eauto.
   - apply (Hn (h_finalize s (t_env t) id)). intros; eapply finalize_exp; eauto.
   - pose proof (end_block_qrel s (t_env t)) as Q. destruct (end_block s (t_env t)) as [s' ev]. simpl in *.
@@ -1151,11 +1154,11 @@ Proof.
     intros i p Hp. rewrite Heq in Hp. eapply (fupd_sound s s1); eauto. }
   unfold sane_op in Hn. destruct (t_op t) eqn:Eo.
   - exact HI.
-  - apply Hc. intros; eapply create_fupd; [apply Hn | eauto].
-  - apply Hc. intros; eapply fund_fupd; eauto.
+  - apply Hc. intros ? ? HG; apply guard_some in HG; eapply create_fupd; [apply Hn | eauto].
+  - apply Hc. intros ? ? HG; apply guard_some in HG; eapply fund_fupd; eauto.
   - apply Hc. intros; eapply vote_fupd; eauto.
   - apply Hc. intros; eapply cancel_fupd; eauto.
-  - apply Hc. intros; eapply withdraw_fupd; eauto.
+  - apply Hc. intros ? ? HG; apply guard_some in HG; eapply withdraw_fupd; eauto.
   - destruct (h_expire s id) as [[s' ev]|] eqn:Eh; simpl; [|exact HI].
     eapply fupd_sound; [eapply expire_fupd; eauto | exact HI].
   - destruct (h_finalize s (t_env t) id) as [[s' ev]|] eqn:Eh; simpl; [|exact HI].
@@ -1491,13 +1494,13 @@ Proof.
   { intros x id Hx Hin. apply elem_of_list_singleton in Hin. exact (Hx id (eq_sym Hin)). }
   unfold sane_op in Hn. destruct (t_op t) eqn:Eo.
   - simpl. split; [eapply good_same; [reflexivity | exact HG]|]. intros id Hin. apply elem_of_nil in Hin. destruct Hin.
-  - apply Hc. intros s1 ev H. split; [eapply create_good; eauto|]. split; [eapply create_tupd; [apply Hn | eauto]|].
+  - apply Hc. intros s1 ev H. apply guard_some in H. split; [eapply create_good; eauto|]. split; [eapply create_tupd; [apply Hn | eauto]|].
     unfold h_create in H. cbv zeta in H.
     repeat match type of H with (if ?c then None else _) = _ =>
       match type of c with bool => destruct c; [discriminate|] end end.
     destruct (g_props s !! id); [discriminate|]. destruct (bal s proposer - amt <? 0); [discriminate|].
     inversion H; subst. intros i. apply Hsing. discriminate.
-  - apply Hc. intros s1 ev H. split; [eapply fund_good; eauto|]. split; [eapply fund_tupd; eauto|].
+  - apply Hc. intros s1 ev H. apply guard_some in H. split; [eapply fund_good; eauto|]. split; [eapply fund_tupd; eauto|].
     unfold h_fund in H. destruct (amt <=? 0); [discriminate|]. destruct (g_props s !! id); [|discriminate].
     repeat match type of H with (if ?c then None else _) = _ =>
       match type of c with bool => destruct c; [discriminate|] end end.
@@ -1513,7 +1516,7 @@ Proof.
     repeat match type of H with (if ?c then None else _) = _ =>
       match type of c with bool => destruct c; [discriminate|] end end.
     inversion H; subst. intros i Hin. apply elem_of_nil in Hin. destruct Hin.
-  - apply Hc. intros s1 ev H. split; [eapply withdraw_good; eauto|]. split; [eapply withdraw_tupd; eauto|].
+  - apply Hc. intros s1 ev H. apply guard_some in H. split; [eapply withdraw_good; eauto|]. split; [eapply withdraw_tupd; eauto|].
     destruct (g_props s !! id) as [p|] eqn:E.
     + destruct (withdraw_refund_exact _ _ _ _ _ _ _ _ H E) as [-> _]. intros i. apply Hsing. discriminate.
     + unfold h_withdraw in H. rewrite E in H. discriminate.
@@ -1707,11 +1710,11 @@ Proof.
     intros id p Hp Ht. rewrite Heq. eapply nt_update_kept; eauto. }
   destruct (t_op t) eqn:Eo.
   - exact Hrefl.
-  - apply Hc. intros s1 ev H. eapply create_nt; eauto.
-  - apply Hc. intros; eapply fund_nt; eauto.
+  - apply Hc. intros s1 ev H. apply guard_some in H. eapply create_nt; eauto.
+  - apply Hc. intros ? ? HG; apply guard_some in HG; eapply fund_nt; eauto.
   - apply Hc. intros; eapply vote_nt; eauto.
   - apply Hc. intros; eapply cancel_nt; eauto.
-  - apply Hc. intros; eapply withdraw_nt; eauto.
+  - apply Hc. intros ? ? HG; apply guard_some in HG; eapply withdraw_nt; eauto.
   - destruct (h_expire s id) as [[s' ev]|] eqn:Eh; simpl; [|exact Hrefl].
     apply nt_update_kept. eapply expire_nt; eauto.
   - destruct (h_finalize s (t_env t) id) as [[s' ev]|] eqn:Eh; simpl; [|exact Hrefl].
@@ -1741,12 +1744,12 @@ Proof. intros s ts id p Hp Ht. exact (run_kept ts s id p Hp Ht). Qed.
 
 (* ids are unique across all five stores: along every history, an id that has ever been created (whatever store
    holds it now) is never accepted by PROPOSAL_CREATE again, whoever sends it with whatever parameters *)
-Theorem id_never_created_twice : forall ts1 ts2 id ty pr amt fdl vdl goal pass cv e payer fee,
+Theorem id_never_created_twice : forall ts1 ts2 id ty pr amt fdl vdl goal pass cv e payer fee cur,
   (1 <= rank_of (run init ts1).1 id)%nat ->
   let s := (run (run init ts1).1 ts2).1 in
-  step s (mkTx (OCreate id ty pr amt fdl vdl goal pass cv) e payer fee) = (s, false, []).
+  step s (mkTx (OCreate id ty pr amt fdl vdl goal pass cv) e payer fee cur) = (s, false, []).
 Proof.
-  intros ts1 ts2 id ty pr amt fdl vdl goal pass cv e payer fee Hr s.
+  intros ts1 ts2 id ty pr amt fdl vdl goal pass cv e payer fee cur Hr s.
   pose proof (stage_monotone ts1 ts2 id) as Hm. fold s in Hm.
   assert (Hex : exists p, g_props s !! id = Some p).
   { destruct (g_props s !! id) as [p|] eqn:Ep; [exists p; reflexivity|]. exfalso.
@@ -1755,7 +1758,7 @@ Proof.
   assert (Hc : h_create s e id ty pr amt fdl vdl goal pass cv = None).
   { unfold h_create. cbv zeta. rewrite Hp.
     repeat match goal with |- (if ?c then None else _) = None => destruct c; [reflexivity|] end. reflexivity. }
-  rewrite Hc. reflexivity.
+  rewrite Hc. unfold cguard. destruct (cur_ok _); reflexivity.
 Qed.
 
 (* and a successful create always concerns an id that no store holds *)
@@ -1975,11 +1978,11 @@ Proof.
     intros i p Hp. rewrite Heq in Hp. eapply (wupd_sound s s1); eauto. }
   destruct (t_op t) eqn:Eo.
   - exact HI.
-  - apply Hc. intros; eapply create_wupd; eauto.
-  - apply Hc. intros; eapply fund_wupd; eauto.
+  - apply Hc. intros ? ? HG; apply guard_some in HG; eapply create_wupd; eauto.
+  - apply Hc. intros ? ? HG; apply guard_some in HG; eapply fund_wupd; eauto.
   - apply Hc. intros; eapply vote_wupd; eauto.
   - apply Hc. intros; eapply cancel_wupd; eauto.
-  - apply Hc. intros; eapply withdraw_wupd; eauto.
+  - apply Hc. intros ? ? HG; apply guard_some in HG; eapply withdraw_wupd; eauto.
   - destruct (h_expire s id) as [[s' ev]|] eqn:Eh; simpl; [|exact HI].
     eapply wupd_sound; [eapply expire_wupd; eauto | exact HI].
   - destruct (h_finalize s (t_env t) id) as [[s' ev]|] eqn:Eh; simpl; [|exact HI].
@@ -2212,4 +2215,12 @@ Proof.
   eapply refund_available; eauto.
   - eapply refundable_failed; eauto.
   - rewrite Ht. eapply alookup_le_asum; eauto.
+Qed.
+
+(* a create / fund / withdraw whose amount is not denominated in OLT is refused and changes nothing, whoever sends it
+   and whatever they own *)
+Theorem non_olt_refused : forall s t, t_cur t <> 0%N ->
+  match t_op t with OCreate _ _ _ _ _ _ _ _ _ | OFund _ _ _ | OWithdraw _ _ _ _ => step s t = (s, false, []) | _ => True end.
+Proof.
+  intros s t Hc. unfold step, cur_ok. rewrite (proj2 (N.eqb_neq _ _) Hc). destruct (t_op t); simpl; auto.
 Qed.
